@@ -704,7 +704,8 @@ def names_case(group, argmode, conc):
             for parent in (src, src / 'sub'):
                 p = parent / n
                 p.write_bytes(b'content of ' + n.encode('utf-8', 'surrogateescape')[:40] + bytes([i]))
-                os.utime(p, ns=(1_500_000_000_000_000_000, 1_400_000_000_000_000_000 + i))
+                # (the first file of each group carries the epoch itself as access and modification time)
+                os.utime(p, ns=(0, 0) if i == 0 else (1_500_000_000_000_000_000, 1_400_000_000_000_000_000 + i))
                 want[str(p.resolve()).lstrip('/')] = (p.read_bytes(), p.stat().st_mtime_ns)
         if argmode == 0:
             args = [src]
